@@ -169,9 +169,12 @@ fn gen_case(bytes: &[u8]) -> Case {
         raw_threads: d.bool(),
         repeat: *d.pick(&[1usize, 1, 3, 20]),
         input_seed: d.u64(),
-        same_input: d.below(4) == 3,
-        abort_half: d.below(5) == 4,
+        // (after cancellations, whatever an abandoned evaluation left behind must not serve another one: with one common
+        // input every later evaluation asks for exactly what the abandoned ones had computed)
+        same_input: { let a = d.below(4) == 3; let b = d.below(4) == 3; a || b },
+        abort_half: false,
     }
+    .with_abort()
 }
 
 /// Large shared rulesets: (A) a few deeply nested rules evaluated by hundreds of tasks that are all in flight at once;
@@ -228,6 +231,17 @@ fn heavy_cases(seed: u64) -> Vec<Case> {
         });
     }
     out
+}
+
+impl Case {
+    /// every cancellation case is a same-input case (decided from the input seed, so replay files carry it explicitly)
+    fn with_abort(mut self) -> Self {
+        if !self.raw_threads && self.input_seed % 3 == 0 {
+            self.abort_half = true;
+            self.same_input = true;
+        }
+        self
+    }
 }
 
 fn case_json(c: &Case) -> serde_json::Value {
@@ -309,9 +323,13 @@ fn check(rt: &tokio::runtime::Runtime, c: &Case, overlap_seen: &AtomicUsize) -> 
                 })
                 .collect();
             if c.abort_half {
-                // let the tasks get going, then cancel every other one wherever it is suspended
-                for _ in 0..3 {
+                // let the tasks get going (until they have made a few calls each, however busy the machine is), then
+                // cancel every other one wherever it is suspended
+                for _ in 0..2000 {
                     tokio::task::yield_now().await;
+                    if log.lock().unwrap().len() >= 2 * c.n {
+                        break;
+                    }
                 }
                 for (k, h) in handles.iter().enumerate() {
                     if k % 2 == 1 {
